@@ -107,7 +107,7 @@ class BDSKModel(CallableModel):
             lambda_,
             mu,
             psi,
-            rho=torch.zeros(1) if self.rho is None else self.rho.tensor,
+            rho=None if self.rho is None else self.rho.tensor,
             origin=self.origin.tensor,
             origin_is_root_edge=self.origin_is_root_edge,
             times=None if self.times is None else self.times.tensor,
@@ -181,7 +181,7 @@ class PiecewiseConstantBirthDeath(Distribution):
         mu: Tensor,
         psi: Tensor,
         *,
-        rho: Tensor = torch.zeros(1),
+        rho: Tensor = None,
         origin: Tensor = None,
         origin_is_root_edge: bool = False,
         times: Tensor = None,
@@ -193,6 +193,9 @@ class PiecewiseConstantBirthDeath(Distribution):
         self.lambda_ = lambda_
         self.mu = mu
         self.psi = psi
+        if rho is None:
+            # no rho-sampling; same dtype and device as the rates
+            rho = torch.zeros(1, dtype=lambda_.dtype, device=lambda_.device)
         self.rho = rho
         self.times = times
         self.origin = origin
